@@ -78,6 +78,12 @@ def whole_image_leg(run: common.Run, n, blocks=(0,), base=700_000, src_grid=True
         proc_ref = grid == 'ref'
         ph, pw = fusion.proc_window_shape(src, ref, proc_ref)
         for hv in blocks:
+            if hv and grid == 'src-forced' and ups == 'bilinear' and ref.px > 3 * src.px:
+                # outside C05's scope (forced grid) and provably partition-dependent: the bilinear support of a source pixel
+                # reaches a reference pixel that a block does not read (theorem block_transparent_src_grid_bilinear_false;
+                # measured on the real code: ratio 4 and 5 differ between partitions, ratio 2 and 3 do not)
+                run.hist['whole-image model: forced source grid, bilinear, ratio > 3, multi-block: skipped'] += 1
+                continue
             case = dict(i=base + k * 10 + hv, op='whole-image model', model=model, kernel=kern, upsampling=ups, halvings=hv,
                         grid=grid, src=src.to_dict(), ref=ref.to_dict())
             try:
